@@ -79,21 +79,21 @@ PROPS["C05"] = {
 PROPS["C01"] = {
     "technique": "reference-model monitor: pointwise 1440-minute model of the documented rule semantics vs schedule_at/state on generated expressions x boundary-biased days",
     "level_text": "Every generated (expression, holiday context, day) is evaluated by the library and by an independent pointwise model (direct calendar arithmetic, minute array, no range lists or hints) and compared minute by minute, on days derived from the expression's own selectors +-2, random days and contiguous sweeps; live Schedule structure is asserted through the verif_ranges hook. Exploration with measured selector-kind coverage; shapes no document settles are counted as abstentions, never judged.",
-    "rule": "seeded ASTs (<= 4 rules/3 entries/3 spans quick; 6/4/4 thorough; each selector kind alone in ~30% of rotating shards) rendered to one of their spellings x holiday context (none / 6 synthetic calendars / embedded countries) x 64 targeted + 48 random days (thorough: 300 + 200 + 400..800-day sweep; single-selector expressions swept day by day 1900..2100); plus, in every tier, an EXHAUSTIVE sweep over every year 1900..9999 of nine year-dependent expressions (easter, easter with offsets, Feb 29, Feb 28-Mar 1 past midnight, week 53, weeks 01/52, stepped weeks, nth-from-end and 5th weekdays with offsets) on their boundary days (calendar_sweep_days). Oracle: model_day() of harness/src/model.rs. Non-trivial = expression has a selector other than 24/7 (cases_with_varying_schedule counts those whose model array varies over the probed days); distinct by hash of (AST, context).",
+    "rule": "seeded ASTs (<= 4 rules/3 entries/3 spans quick; 6/4/4 thorough; each selector kind alone in ~30% of rotating shards) rendered to one of their spellings x holiday context (none / 6 synthetic calendars / embedded countries) x 64 targeted + 48 random days (thorough: 300 + 200 + 400..800-day sweep; single-selector expressions swept day by day 1900..2100); plus, in every tier, an EXHAUSTIVE sweep over every year 1900..9999 of nine year-dependent expressions (easter, easter with offsets, Feb 29, Feb 28-Mar 1 past midnight, week 53, weeks 01/52, stepped weeks, nth-from-end and 5th weekdays with offsets) on their boundary days (calendar_sweep_days); plus PARAMETER x YEAR GRIDS in every tier: one one-rule expression per value of each selector parameter - week 01..53, each of the 366 days of the year, each month and month pair, every year 1900..9999 (alone, open-ended, as end of a stepped range), every nth weekday Mo..Su x [-5..5], weekday offsets of six dates, day offsets -400..400 of four dates, Easter offsets -60..60, every clock minute as span start / span end up to 48:00 / open end, event offsets -1440..1440 for the four events, 100 000 (thorough: all 2.07 million) start x length pairs of clock minutes - each compared with the model on the days around its boundaries in EVERY year 1900..9999 (grid_days ~ 38 million day comparisons, grid_expressions_passed). Oracle: model_day() of harness/src/model.rs. Non-trivial = expression has a selector other than 24/7 (cases_with_varying_schedule counts those whose model array varies over the probed days); distinct by hash of (AST, context).",
     "assumptions": ["chrono's proleptic Gregorian calendar and ISO week numbers", "the harness's selector arithmetic (model.rs), cross-checked by the seeded mutants and by staying silent on the repaired tree", "abstention shapes listed in DESIGN.md section 5 are not judged"],
 }
 
 PROPS["C02"] = {
     "technique": "self-consistency monitor over the public API plus an offline check of the iterator's skip log (hook H2): interval stream vs schedule_at on every day the iterator did not look at",
     "level_text": "For generated (expression, context, window) the whole interval stream is consumed and checked for tiling (non-empty, increasing, gap-free, exact cover of [from, min(to, 10000-01-01)), alternating states) and every interval is compared with the daily schedules: all days of short intervals, and for long ones exactly the days the iterator reports as skipped (hook H2) plus model-derived candidate days. Exploration; the evidence states how many skipped days were point-checked and how many days inside long intervals were not.",
-    "rule": "seeded ASTs (a third biased to long constant intervals) x holiday contexts x windows: short (<= 10 days, arbitrary start second), medium (<= 3 years), long (<= 60 years; thorough up to 8100 years), straddling 1900 / 9999, empty, inverted, open-ended (capped). Oracle: schedule_at of the same value (C01 ties it to the semantics). Non-trivial = stream with >= 2 intervals or a skip of >= 2 days; distinct by hash of (AST, context, window).",
+    "rule": "seeded ASTs (a third biased to long constant intervals) x holiday contexts x windows: short (<= 10 days, arbitrary start second), medium (<= 3 years), long (<= 60 years; thorough up to 8100 years), straddling 1900 / 9999, empty, inverted, open-ended (capped); plus an EXACT-STREAM GRID: ~460 (thorough ~1400 x 3 variants) one-rule expressions taking every value of one day-selector parameter (weeks, week ranges and steps, days of the year, months, month and date ranges, nth weekdays, weekday/day offsets, Easter offsets), plain or with '10:00-12:00' / '22:00-26:00 unknown', iterated over 1900..1960, 9940..9999 and a 400-year window rotating with the seed (thorough: the plain variants over the whole range 1900..9999) and compared interval by interval with the runs obtained by evaluating EVERY day of the window (exact_grid_days_evaluated ~ 88 million, exact_grid_intervals_compared ~ 11 million). Oracle: schedule_at of the same value (C01 ties it to the semantics). Non-trivial = stream with >= 2 intervals or a skip of >= 2 days; distinct by hash of (AST, context, window).",
     "assumptions": ["schedule_at is the pointwise truth (decided separately by C01)", "hook H2 reports every jump of the day cursor (one call site, reviewed)"],
 }
 
 PROPS["C03"] = {
     "technique": "self-consistency monitor: state / is_* / next_change vs a pointwise scan of the daily schedules, with same-interval probes; step budgets from hook H1 bound the cost of unbounded calls",
     "level_text": "At generated instants (sub-minute parts included) state is compared with the schedule of its day, the three predicates with state, and next_change with an exhaustive pointwise scan up to a horizon (3 years quick, 60 years thorough): never earlier, never later, None only when nothing changes; further probes inside the returned interval must give the same answer. Claims beyond the horizon are checked on the days the iterator skipped (hook H2) and on candidate days, and reported as sampled.",
-    "rule": "seeded ASTs x holiday contexts x 3 instants each (days derived from the expression's selectors +-2 or random in 1900..9999; minutes at span bounds +-1; seconds/nanoseconds in a third). Non-trivial = instant with a pointwise change within the horizon; distinct by hash of (AST, context, instant).",
+    "rule": "seeded ASTs x holiday contexts x 3 instants each (days derived from the expression's selectors +-2 or random in 1900..9999; minutes at span bounds +-1; seconds/nanoseconds in a third); plus an EXACT GRID: the one-parameter expressions of C02's grid over a 150-year window rotating with the seed and over 9900..9999 (thorough: 1900..2400, 9500..9999 and a rotating 500-year window), every day evaluated, next_change from 120 (thorough 400) sampled instants per window (start, last minute and inside of a run) must equal the start of the next run, None exactly in the last run before 10000-01-01 (exact_grid_next_change_calls ~ 110 000). Non-trivial = instant with a pointwise change within the horizon; distinct by hash of (AST, context, instant).",
     "assumptions": ["schedule_at is the pointwise truth (decided separately by C01)", "beyond the horizon the no-change claim is checked on skipped and candidate days only (far_claims_sampled)"],
 }
 
